@@ -182,7 +182,8 @@ def apply_model(m, op):
         for x in m.ids[d:d + l + 1]:
             grp.extend(x if isinstance(x, list) else [x])
         gshape = m.shape[d:d + l + 1]
-        if any(isinstance(s, tuple) for s in gshape):
+        if any(isinstance(s, tuple) for s in gshape) and style != "tuple":
+            # (tuple style splices an already flattened rank's coordinates, rank ids and shape alike)
             m.shape_known = False
         if style in INT_STYLES:
             # flattening never merges: two stored elements of the lowest flattened rank must not meet
